@@ -317,20 +317,20 @@ func (x *lc) dangers(d decoder, ref []byte) []danger {
 				}
 				// Two probes, so that the harmless probe stays cheap for fat elements: 2^14 first (a length of
 				// 8-byte-or-larger elements shows as >= 128 KiB), 2^19 only if that showed nothing (1..7-byte
-				// elements: >= 512 KiB). A probe that kills the helper with "out of memory" carries the size of the
-				// refused request and is judged like one that was satisfied. A false positive of a probe costs one
-				// confirmation job and is dropped there.
+				// elements: >= 512 KiB). A false positive of a probe costs one confirmation job and is dropped there.
 				probed := uint64(probeSmall)
 				out := runJob(hdr, x.corruptJob(d, o, enc(f, probeSmall), false))
-				if out.Fatal != "" && out.Fatal != "out-of-memory" {
-					continue
-				}
-				if out.Alloc < 8*probeSmall {
+				if out.Fatal == "" && out.Alloc < 8*probeSmall {
 					probed = probeLen
 					out = runJob(hdr, x.corruptJob(d, o, enc(f, probeLen), false))
-					if (out.Fatal != "" && out.Fatal != "out-of-memory") || out.Alloc < probeLen || out.Alloc <= 16*uint64(len(ref))+1<<16 {
+					if out.Fatal == "" && (out.Alloc < probeLen || out.Alloc <= 16*uint64(len(ref))+1<<16) {
 						continue
 					}
+				}
+				// (a helper that dies on a harmless-sized length in a genuine integer field is a candidate whatever
+				// the runtime reported; the confirmation below decides)
+				if out.Alloc < probed {
+					out.Alloc = probed
 				}
 				dz := danger{field: f, alloc: out.Alloc, probed: probed, site: owner(o)}
 				// Confirmation by one real allocation above the limit, once per decoder function that trusts the
@@ -350,9 +350,9 @@ func (x *lc) dangers(d decoder, ref []byte) []danger {
 					}
 					o3 := runJob(hdr, x.corruptJob(d, o, enc(f, v), false))
 					switch {
-					case o3.Fatal == "out-of-memory":
+					case o3.Fatal != "":
 						c.ok = true
-						c.msg = fmt.Sprintf("confirmed: with the field at offset %d set to 2^%d the process was killed (fatal error: out of memory)", o, bits.Len64(v)-1)
+						c.msg = fmt.Sprintf("confirmed: with the field at offset %d set to 2^%d the process was killed (fatal error: %s)", o, bits.Len64(v)-1, o3.Fatal)
 					case o3.Alloc > allocLimit(len(ref)):
 						c.ok = true
 						c.msg = fmt.Sprintf("confirmed: with the field at offset %d set to 2^%d the decoder allocated %d MiB before returning err=%q", o, bits.Len64(v)-1, o3.Alloc>>20, o3.Err)
